@@ -230,6 +230,8 @@ def run(run):
             run.nontriv(('levels', name, q))
         run.sample({'query': meta[1][1], 'message': meta[1][0], 'levels': {str(k): v for k, v in meta[1][2].items()}})
         run_semantics(run, msgs)
+        from .. import cmd
+        cmd.run_commands(run, wd, ['script'], seed())         # the script command: nest level option, metadata-only scripts (Cmd.tla)
     finally:
         rm_workdir(wd)
     run.assumptions = ['escape-free literals (the property says so); fragment contents never contain their own terminator',
